@@ -1,0 +1,54 @@
+//! Observation hooks for runtime verification.
+//!
+//! Compiled only with the cargo feature `verif-hooks`, which is off by default.
+//! The hooks do not change what the inference engine does: they hand references
+//! to values the engine has just computed to a callback installed by a monitor.
+
+use std::cell::RefCell;
+
+use super::rule::Rule;
+use super::unifiable::Unifiable;
+use super::substitution_set::SubstitutionSet;
+
+/// What the engine reports to an installed monitor.
+pub enum HookEvent<'e> {
+    /// A fact or rule was fetched from the knowledge base and renamed,
+    /// in order to resolve `goal` under the substitution set `ss`.
+    Rename {
+        predicate: &'e str, index: usize,
+        stored: &'e Rule, renamed: &'e Rule,
+        goal: &'e Unifiable, ss: &'e SubstitutionSet<'e>,
+        id_before: usize, id_after: usize,
+    },
+    /// The head of a renamed rule was unified with the goal.
+    HeadUnify {
+        head: &'e Unifiable, goal: &'e Unifiable,
+        ss_in: &'e SubstitutionSet<'e>, ss_out: Option<&'e SubstitutionSet<'e>>,
+    },
+    /// The built-in predicate unify (=) was executed.
+    BipUnify {
+        left: &'e Unifiable, right: &'e Unifiable,
+        ss_in: &'e SubstitutionSet<'e>, ss_out: Option<&'e SubstitutionSet<'e>>,
+    },
+}
+
+type Callback = Box<dyn FnMut(&HookEvent)>;
+
+thread_local! {
+    static HOOK: RefCell<Option<Callback>> = RefCell::new(None);
+}
+
+/// Installs (or, with None, removes) the monitor's callback for this thread.
+pub fn set_hook(callback: Option<Callback>) {
+    HOOK.with(|h| { *h.borrow_mut() = callback; });
+}
+
+/// Reports an event to the installed callback, if any. An event raised
+/// while the callback is already running is not reported.
+pub fn emit(event: &HookEvent) {
+    HOOK.with(|h| {
+        if let Ok(mut guard) = h.try_borrow_mut() {
+            if let Some(f) = guard.as_mut() { f(event); }
+        }
+    });
+}
